@@ -596,3 +596,12 @@ def gen_thr(tier, seed):
     for j in range(6 if tier == "quick" else 60):
         cases.append("THR h%d %d %d %d" % (j, rng.choice([2, 3, 4, 8, 16]), rng.randrange(1 << 30), rng.choice([50, 700, 3000, 20000])))
     return cases, {"threads": [c.split()[2] for c in cases]}
+
+
+# ---------------------------------------------------------------- copies / moves (C19)
+def gen_own(tier, seed):
+    rng = random.Random(seed * 160481183 + 71)
+    cases = []
+    for j in range(5 if tier == "quick" else 50):
+        cases.append("OWN w%d %d %d" % (j, rng.randrange(1 << 30), rng.choice([3, 40, 600, 3000, 9000])))
+    return cases, {"n": [c.split()[3] for c in cases]}
